@@ -137,7 +137,7 @@ func (p *Parser) ReadPeek() {
 			// Skip Fastly pgrama embedded data
 			for {
 				t = p.tk.NextToken()
-				if t.Type == token.SEMICOLON {
+				if t.Type == token.SEMICOLON || t.Type == token.EOF {
 					break
 				}
 			}
